@@ -571,7 +571,8 @@ Definition ph (base : N) (n : nat) : list N := map (fun i => base + N.of_nat i) 
 
 Record pk_case := mk_pk {
   pk_kind : N; pk_flags : N; pk_key : N; pk_cred : list N; pk_q : N; pk_sqid : N; pk_pn : N;
-  pk_nec : N; pk_off : N; pk_fin : N; pk_port : N; pk_app : list N; pk_cd : list N; pk_plen : N }.
+  pk_nec : N; pk_off : N; pk_fin : N; pk_port : N; pk_app : list N; pk_cd : list N; pk_plen : N;
+  pk_delta : N }.
 
 Definition pk_parse_case (r : list Z) : pk_case * list Z :=
   let '(k, r) := nxt r in
@@ -592,12 +593,13 @@ Definition pk_parse_case (r : list Z) : pk_case * list Z :=
   let '(cl, r) := nxt r in
   let '(c0, r) := nxt r in
   let '(pl, r) := nxt r in
+  let '(dl, r) := nxt r in
   (mk_pk (znat k mod 3) (znat fl mod 256) (zvar key) (map zbyte cred)
          (N.min (znat q) (2 ^ 60 - 1)) (zvar sq) (zvar pn) (zvar nec) (zvar off) (zvar fin)
          (znat port mod 65536)
          (ramp (zbyte a0) 7 (N.to_nat (N.min (znat al) 40)))
          (ramp (zbyte c0) 3 (N.to_nat (N.min (znat cl) 40)))
-         (N.min (znat pl) 300), r).
+         (N.min (znat pl) 300) (N.max 1 (N.min (znat dl) 8589934592)), r).
 
 Definition pk_stream (c : pk_case) : st_pkt :=
   let f := pk_flags c in
@@ -698,6 +700,30 @@ Definition pkt_dispatch (bs : list N) : list Z :=
       else [0%Z]
   end.
 
+(* stream::decoder::Packet::retransmit of the (data, not probe) stream packet of a case to packet
+   number pn + delta, then decode and open: [1; new packet number; original packet number; 0]
+   (the 0: not opened under a wrong key) when the stream is reliable, the new number is a VarInt and
+   the distance fits the 32-bit relative field; [0; 0; 0; 0] otherwise (retransmit refuses, or the
+   case is not a stream data packet) *)
+Definition pk_rt (c : pk_case) : list Z :=
+  if (pk_kind c =? 0) && negb (flag (pk_flags c) 16) && flag (pk_flags c) 2
+     && (pk_pn c + pk_delta c <=? varint_max) && (pk_delta c <=? u32_max)
+  then [1%Z; Nz (pk_pn c + pk_delta c); Nz (pk_pn c); 0%Z]
+  else [0; 0; 0; 0]%Z.
+
+(* every single-byte mutation of the retransmitted packet: (accepted, first position, its xor).
+   remove_retransmit clears the IS_RECOVERY_PACKET bit of the tag byte before the AEAD check and
+   the retransmission mask covers only the two packet numbers, so exactly that bit can be flipped *)
+Definition pk_rt_exh (c : pk_case) : list Z :=
+  if (hd 0 (pk_rt c) =? 1)%Z then [1; 0; Nz Gen_C18.stream_is_recovery_packet]%Z else [0; -1; 0]%Z.
+
+(* the cases in which the model itself meets the demand "no mutation accepted" *)
+Definition pkt_rt_clean (case : list Z) : bool :=
+  match case with
+  | [] => true
+  | op :: r => if (op =? 0)%Z then negb (hd 0 (pk_rt (fst (pk_parse_case r))) =? 1)%Z else true
+  end.
+
 (* op 0: fields -> real encoder with real AEAD / HMAC keys -> decode, open, all single-byte
          mutations, one multi-byte mutation
    op _: raw bytes through the tag dispatcher, opened under an unrelated key *)
@@ -711,7 +737,7 @@ Definition pkt_run (case : list Z) : list Z :=
         let bs0 := h ++ ph 512 (N.to_nat (pk_plen_of c)) ++ tag_ph in
         let '(_, same) := mutate r bs0 in
         [Z.of_nat (length h)] ++ map Nz h ++ pk_dec_out (pk_kind c) bs0
-          ++ [1; 1; 0; 0; -1; bz same]%Z
+          ++ [1; 1; 0; 0; -1; bz same]%Z ++ pk_rt c ++ pk_rt_exh c
       else
         let '(_, r) := nxt r in
         pkt_dispatch (map zbyte r)
@@ -736,7 +762,7 @@ Definition pkt_judge (case out : list Z) : bool :=
             | 1%Z :: _ :: o3 =>
                 let exp := tl (pk_expected c hn) in
                 zlist_eqb (firstn (length exp) o3) exp &&
-                zlist_eqb (skipn (length exp) o3) [1; 1; 0; 0; -1; bz same]%Z
+                zlist_eqb (skipn (length exp) o3) ([1; 1; 0; 0; -1; bz same]%Z ++ pk_rt c ++ [0; -1; 0]%Z)
             | _ => false
             end
         end
